@@ -21,9 +21,10 @@ Not demanded (left out of the alphabet, see DESIGN.md "Not demanded"):
     JSON/YAML -> null) plus DIP text (none is DIP's own literal) plus numeric constants in C/C++/Fortran/Rust (where
     the exporter writes the Python token `None`: reported).  bool/str none constants and TOML none are skipped (the
     documentation examples show `.false.`/`false` and an omitted key).
-  * the scalar empty string (Environment.data() itself fails on it - a parser matter, C13/C14), strings with trailing
-    blanks (Fortran pads), arrays as C macros, several tag selectors at once, Fortran free-form line length
+  * the scalar empty string (Environment.data() itself fails on it - a parser matter, C13/C14), arrays as C macros, several tag selectors at once, Fortran free-form line length
     (-ffree-line-length-none is passed), compiler warnings (-w), the Bash `export` attribute itself.
+  * Fortran character values are compared modulo trailing blanks (character entities are blank padded and Fortran's
+    own == ignores them), but the declared character length must hold every element completely ("truncated" otherwise).
   * float32 targets: equality after rounding to single precision (1 ulp slack for double rounding of the literal).
 """
 import os
@@ -68,6 +69,12 @@ UNIT = "cm"
 
 
 # ---------------------------------------------------------------------------------------------- alphabet
+# string contents that coincide with what the exporters / target languages use as separators, delimiters, comment or
+# expansion characters (comma+blank joins array literals; ; [ ] ( ) = : # ' { } $ ` \ % & ! * | - and blanks at either
+# end).  All of them can be written in DIP (single-quoted scalar, JSON element) - probed on the parser.
+DELIMS = ["alpha, beta, gamma", "a,b", "a;b", "x[1]", "[x], [y]", "(y)", "f(1, 2)", "k=v", "k = v", "a:b", "a: b",
+          "n#1", "n #1", "it's", "'", " lead", "trail ", "a  b", "{z}", "$x", "${x}", "a`b", "a\\b", "%s", "a&b", "!x",
+          "a*b", "a|b", "-x", "don't, can't"]
 def _cls(dtype):
     return ("bool" if dtype == "bool" else "str" if dtype == "str" else "float" if dtype.startswith("float")
             else "uint" if dtype.startswith("uint") else "sint")
@@ -178,6 +185,16 @@ def base_params():
     add("str", None, 'q"uote', None, "quote")
     add("str", None, 'say "hi" now', None, "quote")
     # (a string array with a quote cannot be written in DIP: the array parser does not accept the JSON escape)
+    # strings whose content looks like the separators / delimiters the back-ends write themselves
+    L = len(DELIMS)
+    for d in DELIMS:
+        add("str", None, d, None, "delim-r0")
+    for d in DELIMS:
+        add("str", [3], ["x", d, "yz"], None, "delim-r1")      # the delimiter string is the longest element
+    for off in range(0, L, 6):
+        add("str", [2, 3], _nest([DELIMS[(off + i) % L] for i in range(6)], [2, 3]), None, "delim-r2")
+    for off in range(0, L, 8):
+        add("str", [2, 2, 2], _nest([DELIMS[(off + i) % L] for i in range(8)], [2, 2, 2]), None, "delim-r3")
     for p in out:
         if p["shape"] and len(p["shape"]) >= 2:
             f = _flat(p["value"])
@@ -398,6 +415,8 @@ def _value_behaviour(exp, oflat, single):
     kind, eflat, shape = exp["kind"], exp["flat"], exp["shape"]
     if len(oflat) != len(eflat):
         return "wrong-shape"
+    if kind == "str" and all(isinstance(o, str) and e.startswith(o) for o, e in zip(oflat, eflat)):
+        return "truncated"
     transforms = [("", eflat)]
     if shape and len(shape) >= 2:
         transforms.append(("column-major-fill", _colmajor(eflat, shape)))
@@ -531,9 +550,20 @@ def compare(backend, opt, spec, exp, mode, sym, obs):
     oflat = o["values"] if exp["shape"] else [o["values"]]
     if len(oflat) != len(exp["flat"]):
         return ("wrong-shape", want, got)
+    eflat = exp["flat"]
+    if backend == "fortran" and kind == "str":
+        # character entities are blank padded and Fortran's own == ignores trailing blanks: compared modulo trailing
+        # blanks, but the declared length must be able to hold every element completely
+        need = max(len(e) for e in eflat)
+        want["charlen>="] = need
+        got["charlen"] = o.get("charlen")
+        if o.get("charlen") is None or o["charlen"] < need:
+            return ("truncated", want, got)
+        eflat = [e.rstrip(" ") for e in eflat]
+        exp = dict(exp, flat=eflat)
     if not o.get("exact", True) and kind == "float":
         return ("wrong-value", want, dict(got, note="carries more bits than a double"))
-    if all(_eq(kind, x, e, single) for x, e in zip(oflat, exp["flat"])):
+    if all(_eq(kind, x, e, single) for x, e in zip(oflat, eflat)):
         return None
     return (_value_behaviour(exp, oflat, single), want, got)
 
@@ -560,6 +590,16 @@ def tags_of(backend, opt, spec, mode, sel=None):
             t.append("has-space")
         if len(set(len(x) for x in flat)) > 1:
             t.append("unequal-length")
+        special = sorted(set(ch for x in flat for ch in x if not ch.isalnum() and ch not in ' "'))
+        if special:
+            t.append("has-delimiter")
+            t.extend("char=" + ch for ch in special)
+        if any(", " in x for x in flat):
+            t.append("has-comma-blank")
+        if any(x.startswith(" ") for x in flat):
+            t.append("has-leading-blank")
+        if any(x.endswith(" ") for x in flat):
+            t.append("has-trailing-blank")
     if c == "float" and spec["value"] is not None and spec["dtype"] != "float32":
         import numpy as np
         with np.errstate(all="ignore"):
@@ -1089,7 +1129,8 @@ def finish(total, tier, seed):
 MANIFEST = dict(
     text="Translation validation of the nine configuration exporters: every parameter of the bounded space (11 data "
          "types/widths x {scalar,[3],[2,3],[2,2,2]} x value alphabets incl. width maxima, non-dyadic decimals, blanks, "
-         "quotes, none x unit on/off x flat/nested names) is exported through every back-end and option set (rename, "
+         "quotes, 30 strings made of separator/delimiter characters (', ' ; [ ] ( ) = : # ' { } $ ` \\ % & ! * | and "
+         "leading/trailing blanks; scalar and as array element of every rank), none x unit on/off x flat/nested names) is exported through every back-end and option set (rename, "
          "units, define/const/constexpr, export, guard/module) and the exported text is compiled / loaded by the "
          "format's own tool (gcc, g++, gfortran, rustc, bash, json, yaml, tomllib, DIP re-parse); symbol, declared "
          "type/width/sign, shape and every element by index are compared with the environment. Uncompilable batches "
